@@ -68,6 +68,7 @@ func expandC06(base Scenario, res *Result, tier string) []Scenario {
 			v.F.EOFAt = k
 		case "readerr":
 			v.F.ErrAt = k
+			v.F.ErrKind = []string{"", "", "reset", "timedout"}[r.IntN(4)]
 		case "writeerr":
 			v.F.WriteErrAt = k
 		}
